@@ -98,6 +98,34 @@ func (b *backend) exec(c *Conc, call Call) (res rawResult) {
 	case "update":
 		rel, _ := c.Release(AbsRel{call.Name, call.Rev, call.St, call.V})
 		res.err = b.st.Update(rel)
+	case "modify":
+		// helm's read-modify-write: take the object a Query (selector name + owner, as Storage.History) or a
+		// List (filter on the name) RETURNS for this key - labels as the driver set them -, change its status
+		// in place and write that very object back with Update (what upgrade does to the current release).
+		cname, crev := c.Names[call.Name], c.ConcRev(call.Rev)
+		var rels []*rspb.Release
+		if call.Q.Owner == "helm" {
+			rels, _ = b.st.Query(map[string]string{"name": cname, "owner": "helm"})
+		} else {
+			rels, _ = b.st.List(func(r *rspb.Release) bool { return r.Name == cname })
+		}
+		var target *rspb.Release
+		for _, r := range rels {
+			if r != nil && r.Name == cname && r.Version == crev {
+				target = r
+				break
+			}
+		}
+		if target == nil { // the read does not show the key: an Update of it has to fail
+			target, _ = c.Release(AbsRel{call.Name, call.Rev, call.St, 1})
+		} else {
+			if target.Info == nil {
+				target.Info = &rspb.Info{}
+			}
+			target.Info.Status = rspb.Status(c.Stat[call.St])
+			delete(b.seenPtr, target) // (memory driver: the stored object itself was just changed)
+		}
+		res.err = b.st.Update(target)
 	case "get":
 		res.rel, res.err = b.st.Get(c.Names[call.Name], c.ConcRev(call.Rev))
 	case "delete":
@@ -154,26 +182,52 @@ type table struct {
 
 func buildTable(c *Conc, sc Scenario) (*table, error) {
 	t := &table{byDigest: map[string]AbsRel{}, projs: map[AbsRel]*Proj{}, big: map[AbsRel]bool{}}
-	for _, call := range sc.Calls {
-		if call.Op != "create" && call.Op != "update" {
-			continue
-		}
-		a := AbsRel{call.Name, call.Rev, call.St, call.V}
+	add := func(a AbsRel) error {
 		if _, ok := t.projs[a]; ok {
-			continue
+			return nil
 		}
 		rel, big := c.Release(a)
 		p, err := Project(rel)
 		if err != nil {
-			return nil, fmt.Errorf("generated release %v does not project: %v", a, err)
+			return fmt.Errorf("generated release %v does not project: %v", a, err)
 		}
 		d := p.Digest()
 		if other, dup := t.byDigest[d]; dup {
-			return nil, fmt.Errorf("generated releases %v and %v have the same projection", a, other)
+			return fmt.Errorf("generated releases %v and %v have the same projection", a, other)
 		}
 		t.byDigest[d] = a
 		t.projs[a] = p
 		t.big[a] = big
+		return nil
+	}
+	type kv struct {
+		name string
+		rev  int
+	}
+	variants := map[kv]map[int]bool{}
+	for _, call := range sc.Calls {
+		if call.Op != "create" && call.Op != "update" {
+			continue
+		}
+		if err := add(AbsRel{call.Name, call.Rev, call.St, call.V}); err != nil {
+			return nil, err
+		}
+		k := kv{call.Name, call.Rev}
+		if variants[k] == nil {
+			variants[k] = map[int]bool{}
+		}
+		variants[k][call.V] = true
+	}
+	// modify keeps the stored content and changes the status: every content the key can hold, with that status
+	for _, call := range sc.Calls {
+		if call.Op != "modify" {
+			continue
+		}
+		for v := range variants[kv{call.Name, call.Rev}] {
+			if err := add(AbsRel{call.Name, call.Rev, call.St, v}); err != nil {
+				return nil, err
+			}
+		}
 	}
 	return t, nil
 }
@@ -371,9 +425,9 @@ func (b *backend) projectStore(c *Conc, t *table) (out map[string]StoreRec, pani
 			}
 		}
 		r.Labels = lbl // user labels live in the object's metadata; Project drops the system keys
-		a, _, _ := t.abstract(c, r)
+		a, sdiff, _ := t.abstract(c, r)
 		lab := &Sel{Name: c.AbsName(lbl["name"]), Owner: lbl["owner"], Status: c.AbsStatus(lbl["status"]), Version: c.AbsVersion(lbl["version"])}
-		out[key] = StoreRec{AbsRel: a, Lab: lab}
+		out[key] = StoreRec{AbsRel: a, Lab: lab, Diff: sdiff}
 		b.seen[k.Name] = out[key]
 	}
 	return out, ""
@@ -391,7 +445,7 @@ type Result struct {
 // update / delete "failed" and "notfound" are one outcome ("fails", as the property puts it; whether
 // failing was right is decided against the specification).
 func replyKey(op string, r *Reply, store map[string]StoreRec) string {
-	if r.St == "failed" && (op == "get" || op == "update" || op == "delete") {
+	if r.St == "failed" && (op == "get" || op == "update" || op == "delete" || op == "modify") {
 		cp := *r
 		cp.St = "notfound"
 		r = &cp
@@ -459,7 +513,7 @@ func RunScenario(seed int64, tier string, sc Scenario) (*Result, error) {
 			rep := &Reply{St: class, Set: []AbsRel{}}
 			// the property's reading of an error: a read / update / delete that fails with another error
 			// than not-found still "fails" (StorageTrace.tla decides whether failing was right)
-			if (class == "invalidkey" || class == "error") && (call.Op == "get" || call.Op == "update" || call.Op == "delete") {
+			if (class == "invalidkey" || class == "error") && (call.Op == "get" || call.Op == "update" || call.Op == "delete" || call.Op == "modify") {
 				rep.St = "failed"
 			} else if class == "invalidkey" {
 				rep.St = "error"
@@ -493,6 +547,7 @@ func RunScenario(seed int64, tier string, sc Scenario) (*Result, error) {
 			for _, sr := range store {
 				if sr.V == 0 && strings.HasPrefix(sr.Name, "n") {
 					raw.BigInt = raw.BigInt || t.anyBig(sr.Name, sr.Rev)
+					raw.StoreDiff = sr.Diff
 				}
 			}
 			res.Traces[d] = append(res.Traces[d], Event{Ev: "call", Scenario: sc.ID, Drv: d, Step: step, Call: &call, Reply: rep, Store: store, Raw: raw})
